@@ -5,7 +5,7 @@
    lit_pass_correct: the function after the pass has the same behaviours as before (Sem.beh_equiv). *)
 From Coq Require Import ZArith NArith Bool List String Lia Relations.
 From Verif Require Import Base.Word256 Base.PyInt C14.RangeBase C14.RangeFix C14.RangeFixProofs C14.WordClosed
-  C14.GenEval C14.EvalSound C14L.LitBase C14L.GenLit C14L.Sem C14L.SemProofs C14L.Pointwise C14L.Lit.
+  C14.GenEval C14.EvalSound Base.WordLemmas C14L.LitBase C14L.GenLit C14L.Sem C14L.SemProofs C14L.Pointwise C14L.Lit.
 Import ListNotations.
 Open Scope string_scope.
 Open Scope Z_scope.
@@ -17,7 +17,8 @@ Proof.
   unfold GenLit.evm_not. destruct ((0 <=? v) && (v <=? GenLit.c_SizeLimits_MAX_UINT256)) eqn:G; [|discriminate].
   apply andb_prop in G as [G1 G2]. apply Z.leb_le in G1, G2.
   change GenLit.c_SizeLimits_MAX_UINT256 with (W - 1) in G2.
-  intros H. injection H as <-. split; [lia|].
+  remember (Z.lxor GenLit.c_SizeLimits_MAX_UINT256 v) as x eqn:Ex.
+  intros H. injection H as <-. split; [lia|]. rewrite Ex.
   change GenLit.c_SizeLimits_MAX_UINT256 with (Z.ones 256). apply lxor_max. lia.
 Qed.
 
